@@ -32,6 +32,10 @@ pub fn matches_spec(act: &Act, spec: &ActionSpec) -> bool {
 
 impl Prop for C04 {
     type Case = FwCase;
+    fn admissible(case: &FwCase) -> bool {
+        crate::props::fw_admissible(case)
+    }
+
     const ID: &'static str = "C04";
     const RULE: &'static str = "case = 0..=5 validated machines x fractions x history with batches of 0..=40 events (profiles: constant dists with scripted words; all 11 families; unbounded/heavy-tailed/huge dists on timeouts and durations). Non-trivial: some call returned >=2 actions, or a machine was scheduled more than once within one call (step log), or a returned timeout/duration was clamped to exactly 24 h, or a machine that had reached END was addressed by a later event. Distinct = distinct hash of the whole case.";
 
